@@ -3,10 +3,10 @@ from vlib import *
 
 def harnesses(tier):
     H = []
-    def seq(name, t, setup, post, n, what, bound, defs=(), tiers=('quick', 'thorough'), timeout=900):
+    def seq(name, t, setup, post, n, what, bound, defs=(), tiers=('quick', 'thorough'), timeout=900, inner=5):
         dd = ['NSLOT=3', 'NTHR=2', 'PMINFREE=1', 'TRYGET=get_task'] + list(defs)
         # later -D wins: put overrides last
-        H.append(AHarness(name, 'c08_conc.cpp', None, threads=t, setup=setup, post=post, nsteps=n, unwind=max(n + 1, 8), defs=dd, inline_all=True, timeout=timeout, native_replay=False, tiers=tiers, what=what,
+        H.append(AHarness(name, 'c08_conc.cpp', None, threads=t, setup=setup, post=post, nsteps=n, unwind=inner, unwindset={'main.0': n + 1}, defs=dd, inline_all=True, timeout=timeout, native_replay=False, tiers=tiers, what=what,
                           bound=bound + '; all interleavings of the atomic operations within %d scheduled steps (longer spins assumed away); sequentially consistent atomics' % n))
     seq('P1_get_get', ['p1_t0', 'p1_t1'], 'p1_setup', 'p1_post', 20, 'get_free_element_safe || get_free_element_safe from an arbitrary valid pool state: never the same slot, occupancy counter == flags set == initial + successes, nobody refused when enough slots are free', 'pool of 3 slots, >=1 free, cursor arbitrary (wrap-around incl. SIZE_MAX), 2 threads')
     seq('P1_get_get_get', ['p1_t0', 'p1_t1', 'p1_t2'], 'p1_setup', 'p1_post', 30, 'three concurrent getters on a 3-slot pool', 'pool of 3 slots, 3 threads', defs=['NTHR=3'], tiers=('thorough',), timeout=2400)
@@ -15,11 +15,14 @@ def harnesses(tier):
     seq('A2_max', ['a2_max0', 'a2_max1'], 'a2_setup', 'a2_post', 10 if tier == 'quick' else 14, 'max(a) || max(b): final value is max(initial,a,b)', 'all 64-bit values; CAS retry loops within the step bound')
     seq('A3_lock', ['a3_lock0', 'a3_lock1'], 'a3_setup', 'a3_post', 6, 'lock || lock: at most one succeeds, exactly one if the lock was free', 'flag arbitrary')
     seq('L1_lock_dependency', ['l1_t0', 'l1_t1'], 'l1_setup', 'l1_post', 12, 'Task::lock_dependency || lock_dependency on tasks whose locks overlap in opposite roles: at most one succeeds, a failed attempt rolls back (no lock left behind), winners hold all their locks', 'two locks with arbitrary initial state, each task with 1 or 2 dependencies')
-    qd = ['QMAX=2'] if tier == 'quick' else ['QMAX=3']; qn = 16 if tier == 'quick' else 24
-    seq('Q1_get_get', ['q1_t0', 'q1_t1'], 'q1_setup', 'q1_post', qn, 'TaskQueue::get_task || get_task: each index handed out at most once and only with its resource lock held, two receivers never share a resource, remaining entries keep their order, queue lock released, a lockable task is handed out', 'queue of <=%s entries over 3 task slots, 2 resource locks with arbitrary state' % qd[0][-1], defs=qd, timeout=1500)
-    seq('Q1_get_tryget', ['q1_t0', 'q1_t1'], 'q1_setup', 'q1_post', qn, 'get_task || try_get_task (may fail only when the queue lock is contended)', 'as Q1', defs=qd + ['TRYGET=try_get_task'], timeout=1500)
-    seq('Q2_add_get', ['q2_t0', 'q2_t1'], 'q2_setup', 'q2_post', qn, 'add_task || get_task: no lost or duplicated entry, order of the others preserved', 'queue of <=%s entries' % qd[0][-1], defs=qd, timeout=1500)
-    seq('LF_add', ['lf_t0', 'lf_t1'], 'lf_setup', 'lf_post', 10, 'LockFree::add on a double by two adders loses no update', 'small integer values (sums exact), CAS retries within the bound')
+    # two-thread queue races at minimal size (queue operations run entirely under the queue lock: what can go wrong concurrently is a lost/duplicated entry)
+    seq('Q1_get_get', ['q1_t0', 'q1_t1'], 'q1_setup', 'q1_post', 12, 'TaskQueue::get_task || get_task on a queue with <=1 entry: the entry is handed out exactly once, queue lock released', 'queue of <=1 entry, tasks without dependencies', defs=['QMAX=1', 'NODEPS', 'NSLOT=2'], timeout=1200, inner=4)
+    seq('Q1_get_tryget', ['q1_t0', 'q1_t1'], 'q1_setup', 'q1_post_try', 12, 'get_task || try_get_task on a queue with <=1 entry: handed out at most once; try_get_task may fail only under lock contention', 'queue of <=1 entry, tasks without dependencies', defs=['QMAX=1', 'NODEPS', 'NSLOT=2', 'TRYGET=try_get_task'], timeout=1200, inner=4)
+    seq('Q2_add_get', ['q2_t0', 'q2_t1'], 'q2_setup', 'q2_post', 12, 'add_task || get_task: no lost or duplicated entry, order preserved', 'queue of <=1 entry, tasks without dependencies', defs=['QMAX=1', 'NODEPS', 'NSLOT=3'], timeout=1200, inner=4)
+    # sequential inductive twins with the full state space: resources, order, gap closing
+    seq('QS_get_task', ['qs_t0'], 'q1_setup', 'q1_post', 8, 'sequential get_task from ANY valid queue/lock state: hands out the LAST lockable entry only with its resource held, closes the gap keeping the order, releases the queue lock; NO_TASK only when nothing is lockable', 'queue of <=3 entries over 3 task slots, 2 resource locks arbitrary', defs=['QMAX=3'], timeout=1200)
+    seq('QS_try_get_task', ['qs_t0'], 'q1_setup', 'q1_post', 8, 'sequential try_get_task (uncontended) behaves as get_task', 'as QS_get_task', defs=['QMAX=3', 'TRYGET=try_get_task'], timeout=1200)
+    seq('LF_add', ['lf_t0', 'lf_t1'], 'lf_setup', 'lf_post', 10, 'LockFree::add on a double by two adders loses no update', 'small integer values (sums exact), CAS retries within the bound', tiers=('thorough',))
     # sequential twins: one thread, arbitrary valid pre-state (inductive step for pools/queues)
     seq('S_get', ['p1_t0'], 'p1_setup', 'p1_post', 12, 'sequential inductive step of get_free_element_safe from any valid state incl. FULL pool (returns size, state unchanged)', 'pool of 3 slots, any occupancy', defs=['NTHR=1', 'PMINFREE=0'])
     return H
